@@ -446,6 +446,9 @@ ODD_YACC = [
     ("E", "%implicit_tokens w\n%avoid_insert 'a'\n%expect-unused B\n%expect 10\n%%\nA: 'a' | ;\nB: ;"),
     ("F", "%grmtools{yacckind: Original(NoAction)}\n%expect 1\n%token a\n%%\nA: a %prec a {x};"),
     ("F", "%grmtools {yacckind: Grmtools, n: 7}\n%expect-rr 2\n%%\nA -> T: 'a' { 1 } ;"),
+    # %epp strings with backslash escapes (an odd character put where the escaped quote is gives `\<multi-byte>`)
+    ("N", "%epp a \"x\\\"y\"\n%epp b 'p\\'q'\n%epp c \"\\\"\"\n%%\nA: 'a' 'b' 'c';"),
+    ("G", "%epp a 'it\\'s'\n%epp b \"say \\\"hi\\\"\"\n%%\nA -> u8: 'a' 'b' { 1 };"),
 ]
 ODD_LEX = [
     "%x S1\n%s T\n%%\n[0-9]+ \"INT\"\n<S1,T>a{2,3} <+S1>'A'\n<S1>\\141 <-S1>;\n. 'T1'\n",
